@@ -73,6 +73,9 @@ META = {
                     'debug_enabled / v1_debug / recursive_classes / v1_unsafe_parse_dataclass_in_union are merged by the proved algebra but not observed end-to-end'],
 }
 
+# --- lead: algorithm-level source tie mentioned in the technique (kept separate so the builder's text stays intact)
+META['technique'] = META['technique'] + ' + translation of bases.ABCOrAndMeta.__or__ / __and__ from the current source text into Gallina, proved equal to the hand-written model on every run (tie T for algorithms)'
+
 # --------------------------------------------------------------------------------------
 # independent reference, transcribed from the property text
 MERGEABLE = {  # "key transforms, date/time marshalling, skip rules, unknown-key policy, tag key, auto tags, debug"
